@@ -17,7 +17,7 @@ for d in /verif/seeded/*/; do
   ./check $prop quick > /tmp/seedrun.$tag.out 2>&1; rc=$?
   git -C /repo apply -R $d/patch.diff
   viol=$(grep -c '^VIOLATION' /tmp/seedrun.$tag.out)
-  first=$(grep '^VIOLATION' /tmp/seedrun.$tag.out | head -1 | sed 's/.*obligation=\([^ ]*\).*/\1/')
+  first=$(grep '^VIOLATION' /tmp/seedrun.$tag.out | head -1 | sed -e 's/.*obligation=\([^ ]*\).*/\1/' -e 's/.*bounded-stand-in=\([^ ]*\).*/bounded-stand-in:\1/')
   { echo "exit=$rc violations=$viol"; grep -E '^(VIOLATION|UNDECIDED|property=)' /tmp/seedrun.$tag.out | cut -c1-700; } > $d/last_run.txt
   # keep the replay records of this run (the evidence directory is rewritten by the next check)
   rm -rf $d/replay; mkdir -p $d/replay
